@@ -9,8 +9,11 @@
     switchStmt / switchIfStmt, the default swap of the pre-order pass and run.go _case; both models are run
     against yaegi and compiled Go on generated programs and the clause wiring is tied to cfg.go
     ([C01_wiring_matches_source]).  The simulation theorem [C01_core_partial] covers the switch statements
-    accepted by [Wf.wf]: switch WITHOUT a tag, optional init statement, one condition per clause, default
-    clause last, at least one clause, no fallthrough, break and continue inside clause bodies, any nesting.
+    accepted by [Wf.wf]: switch with a tag (integer expression; after an init statement a variable or
+    literal; in each clause only the first case expression may be an operator expression) or without a
+    tag (one condition per clause), optional init statement, default clause last, at least one clause,
+    NO fallthrough, break and continue inside clause bodies, any nesting -- that is the region where Y
+    agrees with G, minus fallthrough.
     The deviations of yaegi on switch are the [C01_switch_*_refuted] theorems.
     The gap to the full property: functions, closures, composite data, range, goto, labels
     are covered by the behavioural streams of the harness only (compiled Go as the oracle). *)
@@ -24,7 +27,7 @@ Definition C01_statement : Prop :=
     Go's semantics -- normally or by a division by zero -- terminates under yaegi's CFG machine with
     the same printed output and the same ending.  [wf_program] is decidable; each of its clauses is
     the negation of a known-finding region (for-init-only, loop-empty-body, loopvar-assign); switch
-    statements are covered in the region described in the header (switch without a tag, no fallthrough, default last). *)
+    statements are covered in the region described in the header (with or without a tag, default last, no fallthrough). *)
 Theorem C01_core_partial :
   forall p, wf_program p = true ->
   forall n out pk, GoSem.run n p = Done out pk -> exists m, Cfg.run m p = Done out pk.
@@ -71,11 +74,11 @@ Theorem C01_loop_empty_body_refuted :
 Proof. exact empty_body_refuted. Qed.
 Print Assumptions C01_loop_empty_body_refuted.
 
-(** Non-vacuity of [C01_core_partial] on switch: a well-formed program with a switch inside a loop. *)
+(** Non-vacuity of [C01_core_partial] on switch: a well-formed program with a tagged and a tagless switch inside a loop. *)
 Theorem C01_switch_wf_inhabited :
   wf_program w_switch_wf = true /\
-  GoSem.run 1000 w_switch_wf = Done [60; 64; 61; 64; 63; 64; 60; 64]%Z false /\
-  Cfg.run 4000 w_switch_wf = Done [60; 64; 61; 64; 63; 64; 60; 64]%Z false.
+  GoSem.run 1000 w_switch_wf = Done [70; 60; 64; 71; 61; 64; 70; 63; 64; 70; 60; 64]%Z false /\
+  Cfg.run 4000 w_switch_wf = Done [70; 60; 64; 71; 61; 64; 70; 63; 64; 70; 60; 64]%Z false.
 Proof. exact switch_wf_inhabited. Qed.
 Print Assumptions C01_switch_wf_inhabited.
 
